@@ -116,12 +116,14 @@ bool BufferedStream::match(int64_t& res, bool noSkipWs) {
 	char s = peek();
 	if (s == '+' || s == '-') { rget(); }
 	if (!isDigit(peek())) { return false; }
+	bool ok = true;
 	for (res = toDigit(rget()); isDigit(peek()); ) {
-		res *= 10;
-		res += toDigit(rget());
+		int d = toDigit(rget());
+		if (ok && res <= (INT64_MAX - d) / 10) { res = (res * 10) + d; }
+		else { ok = false; }
 	}
 	if (s == '-') { res = -res; }
-	return true;
+	return ok;
 }
 int BufferedStream::copy(char* out, int max) {
 	if (max < 0) return max;
